@@ -378,9 +378,12 @@ func (u *universe) judge(chain []int) verdict {
 
 type shareReq struct {
 	Method   string   `json:"method"`
-	Chain    []string `json:"chain"` // node names; last is the requested blob
-	Assemble bool     `json:"assemble,omitempty"`
-	Form     string   `json:"form,omitempty"` // "", "trailing-comma", "leading-comma", "path-suffix"
+	Chain    []string `json:"chain"`              // node names; last is the requested blob
+	Assemble bool     `json:"assemble,omitempty"` // assemble=1
+	// Asm, if set, is the literal (already URL-escaped) value of the assemble
+	// parameter ("=" alone stands for the empty value); it overrides Assemble.
+	Asm  string `json:"asm,omitempty"`
+	Form string `json:"form,omitempty"` // "", "trailing-comma", "leading-comma", "path-suffix"
 }
 
 func (u *universe) names(chain []int) []string {
@@ -403,7 +406,38 @@ func (u *universe) ids(names []string) ([]int, error) {
 	return out, nil
 }
 
-func (u *universe) url(chain []int, assemble bool, form string) string {
+// Spellings of the assemble parameter. "On" is exactly what the handler's
+// strconv.ParseBool takes as true; everything else (false spellings, the empty
+// value, values ParseBool rejects) means the plain blob is asked for.
+var (
+	asmTrue  = []string{"1", "t", "T", "TRUE", "true", "True"}
+	asmFalse = []string{"0", "f", "F", "FALSE", "false", "False"}
+	asmJunk  = []string{"=", "yes", "on", "2", "-1", "tRuE", "TRUe", "1%20", "%201", "01", "true1", "y"}
+)
+
+func asmIsOn(v string) bool {
+	for _, t := range asmTrue {
+		if v == t {
+			return true
+		}
+	}
+	return false
+}
+
+// asmQuery is the query fragment and whether assembling is requested.
+func (q shareReq) asmQuery() (string, bool) {
+	switch {
+	case q.Asm == "=":
+		return "assemble=", false
+	case q.Asm != "":
+		return "assemble=" + q.Asm, asmIsOn(q.Asm)
+	case q.Assemble:
+		return "assemble=1", true
+	}
+	return "", false
+}
+
+func (u *universe) url(chain []int, asm string, form string) string {
 	var sb strings.Builder
 	sb.WriteString("http://unused/")
 	sb.WriteString(u.N[chain[len(chain)-1]].refS)
@@ -427,8 +461,8 @@ func (u *universe) url(chain []int, assemble bool, form string) string {
 		}
 		sep = "&"
 	}
-	if assemble {
-		sb.WriteString(sep + "assemble=1")
+	if asm != "" {
+		sb.WriteString(sep + asm)
 	}
 	return sb.String()
 }
@@ -440,13 +474,13 @@ type shareResp struct {
 	Panic  string
 }
 
-func (u *universe) do(method string, chain []int, assemble bool, form string) (r shareResp) {
+func (u *universe) do(method string, chain []int, asm string, form string) (r shareResp) {
 	defer func() {
 		if p := recover(); p != nil {
 			r.Panic = normPanic(p)
 		}
 	}()
-	req, err := http.NewRequest(method, u.url(chain, assemble, form), nil)
+	req, err := http.NewRequest(method, u.url(chain, asm, form), nil)
 	if err != nil {
 		panic(err)
 	}
@@ -534,9 +568,12 @@ func (u *universe) checkOne(q shareReq, chain []int) (string, *problem) {
 			v = verdict{Reason: "malformed-via"}
 		}
 	}
-	r := u.do(q.Method, chain, q.Assemble, q.Form)
+	asmQ, asmOn := q.asmQuery()
+	r := u.do(q.Method, chain, asmQ, q.Form)
 	mode := q.Method
-	if q.Assemble {
+	if q.Asm != "" {
+		mode += "+" + asmQ
+	} else if q.Assemble {
 		mode += "+assemble"
 	}
 	if q.Form != "" {
@@ -572,7 +609,7 @@ func (u *universe) checkOne(q shareReq, chain []int) (string, *problem) {
 		return refused(v.Reason)
 	}
 	c0 := u.N[chain[0]]
-	if q.Assemble && !c0.Transitive {
+	if asmOn && !c0.Transitive {
 		return refused("assemble-non-transitive")
 	}
 	if !last.Present {
@@ -586,7 +623,7 @@ func (u *universe) checkOne(q shareReq, chain []int) (string, *problem) {
 		}
 		return out, nil
 	}
-	if q.Assemble {
+	if asmOn {
 		if !last.IsFile {
 			// assembling something that is not a file: the property says nothing
 			// about the status; only that nothing outside the shared closure leaks.
@@ -598,7 +635,7 @@ func (u *universe) checkOne(q shareReq, chain []int) (string, *problem) {
 		}
 		out := fmt.Sprintf("serve-assembled[%s]|%s|%d", v.LastHop, mode, r.Status)
 		if r.Status != 200 {
-			return out, &problem{"valid-chain-refused", "assemble:" + v.LastHop, fmt.Sprintf("%s %v: valid transitive chain to a file, assemble=1, but status %d", mode, q.Chain, r.Status)}
+			return out, &problem{"valid-chain-refused", "assemble:" + v.LastHop, fmt.Sprintf("%s %v: valid transitive chain to a file, assembling requested, but status %d", mode, q.Chain, r.Status)}
 		}
 		if q.Method == "HEAD" {
 			if len(r.Body) != 0 || r.CLen != fmt.Sprint(len(last.Content)) {
@@ -644,7 +681,7 @@ func (u *universe) minimalRefusedPrefix(chain []int) ([]int, string) {
 		if !v.Serve || !u.N[p[n-1]].Present {
 			continue
 		}
-		if r := u.do("GET", p, false, ""); r.Status != 200 {
+		if r := u.do("GET", p, "", ""); r.Status != 200 {
 			return p, v.LastHop
 		}
 	}
@@ -676,11 +713,23 @@ func (u *universe) report(res *vk.Result, sc *vk.Scenario, q shareReq, chain []i
 type variant struct {
 	method   string
 	assemble bool
+	asm      string
 }
 
-var readVariants = []variant{{"GET", false}, {"HEAD", false}, {"GET", true}, {"HEAD", true}}
+var readVariants = []variant{{"GET", false, ""}, {"HEAD", false, ""}, {"GET", true, ""}, {"HEAD", true, ""}}
 
-func runShare(res *vk.Result, maxLenShare, maxLenOther int) {
+// spellVariants: every spelling of the assemble parameter x {GET, HEAD}.
+var spellVariants = func() []variant {
+	var out []variant
+	for _, list := range [][]string{asmTrue, asmFalse, asmJunk} {
+		for _, v := range list {
+			out = append(out, variant{"GET", false, v}, variant{"HEAD", false, v})
+		}
+	}
+	return out
+}()
+
+func runShare(res *vk.Result, maxLenShare, maxLenOther, spellShare, spellOther int) {
 	u, err := buildUniverse()
 	if err != nil {
 		res.EngineError("share: building the universe: %v", err)
@@ -697,6 +746,8 @@ func runShare(res *vk.Result, maxLenShare, maxLenOther int) {
 	sc.Bound = fmt.Sprintf("all chains of length 1..%d that start at one of the %d share claims and all chains of length 1..%d that start at any of the other %d blobs, over a universe of %d blobs x {GET,HEAD} x assemble {off,on}", maxLenShare, nShares, maxLenOther, n-nShares, n)
 	scm := res.Scenario("share-other-methods")
 	scm.Bound = fmt.Sprintf("all chains of length 1..2 over %d blobs x {POST,PUT,DELETE,PATCH,OPTIONS} x assemble {off,on}", n)
+	scs := res.Scenario("share-assemble-spellings")
+	scs.Bound = fmt.Sprintf("all chains of length 1..%d that start at a share claim and all chains of length 1..%d that start at another blob x {GET,HEAD} x %d spellings of the assemble parameter (true: %v; false: %v; empty and junk: %v)", spellShare, spellOther, len(spellVariants)/2, asmTrue, asmFalse, asmJunk)
 	scf := res.Scenario("share-request-forms")
 	scf.Bound = fmt.Sprintf("all chains of length 1..3 over %d blobs x {via with trailing comma, via with leading comma, path suffix after the ref} x {GET,HEAD}", n)
 	if _, total := vk.Shard(); total > 0 {
@@ -709,13 +760,13 @@ func runShare(res *vk.Result, maxLenShare, maxLenOther int) {
 	var rec func(sc *vk.Scenario, depth, max int, variants []variant, form string)
 	rec = func(sc *vk.Scenario, depth, max int, variants []variant, form string) {
 		for _, vr := range variants {
-			q := shareReq{Method: vr.method, Chain: u.names(chain), Assemble: vr.assemble, Form: form}
+			q := shareReq{Method: vr.method, Chain: u.names(chain), Assemble: vr.assemble, Asm: vr.asm, Form: form}
 			out, p := u.checkOne(q, chain)
 			sc.Executions++
 			sc.Outcome(out)
 			if !sampled[out] && (strings.HasPrefix(out, "serve[static-set.members]|GET|") || strings.HasPrefix(out, "refuse[no-link-from:decoy-file-nonlink-field]|GET|")) {
 				sampled[out] = true
-				sc.Sample(map[string]any{"request": q, "url": u.url(chain, q.Assemble, q.Form), "oracle_and_status": out})
+				sc.Sample(map[string]any{"request": q, "url": u.url(chain, "", q.Form), "oracle_and_status": out})
 			}
 			if p != nil {
 				u.report(res, sc, q, append([]int(nil), chain...), p)
@@ -734,7 +785,7 @@ func runShare(res *vk.Result, maxLenShare, maxLenOther int) {
 	}
 	var other []variant
 	for _, m := range []string{"POST", "PUT", "DELETE", "PATCH", "OPTIONS"} {
-		other = append(other, variant{m, false}, variant{m, true})
+		other = append(other, variant{m, false, ""}, variant{m, true, ""})
 	}
 	// first hops in the order: share claims first (everything that can be served
 	// starts there), then the rest
@@ -751,9 +802,9 @@ func runShare(res *vk.Result, maxLenShare, maxLenOther int) {
 	}
 	runShareDeep(res, u, u.depth()+1)
 	for pos, c0 := range order {
-		maxLen := maxLenOther
+		maxLen, spellLen := maxLenOther, spellOther
 		if u.N[c0].IsShare {
-			maxLen = maxLenShare
+			maxLen, spellLen = maxLenShare, spellShare
 		}
 		for c1 := 0; c1 < n; c1++ {
 			if !vk.Mine(pos*n + c1) {
@@ -770,7 +821,10 @@ func runShare(res *vk.Result, maxLenShare, maxLenOther int) {
 				rec(sc, 1, 1, readVariants, "")
 				rec(scm, 1, 1, other, "")
 				rec(scf, 1, 1, readVariants[:2], "path-suffix")
+				rec(scs, 1, 1, spellVariants, "")
 			}
+			chain = []int{c0, c1}
+			rec(scs, 2, spellLen, spellVariants, "")
 			chain = []int{c0, c1}
 			rec(sc, 2, maxLen, readVariants, "")
 			chain = []int{c0, c1}
@@ -791,7 +845,8 @@ func runShare(res *vk.Result, maxLenShare, maxLenOther int) {
 func runShareDeep(res *vk.Result, u *universe, maxLen int) {
 	n := len(u.N)
 	sc := res.Scenario("share-deep-frontier")
-	sc.Bound = fmt.Sprintf("all chains of length 1..%d whose prefix without the last blob is a valid chain, last blob ranging over all %d blobs, x {GET,HEAD} x assemble {off,on} (the stored graph is %d hops deep)", maxLen, n, u.depth())
+	sc.Bound = fmt.Sprintf("all chains of length 1..%d whose prefix without the last blob is a valid chain, last blob ranging over all %d blobs, x {GET,HEAD} x assemble {absent, 1, and %d further spellings: every true and false spelling of strconv.ParseBool, the empty value, junk} (the stored graph is %d hops deep)", maxLen, n, len(spellVariants)/2, u.depth())
+	deepVariants := append(append([]variant(nil), readVariants...), spellVariants...)
 	deepest := 0
 	var ext func(chain []int, top int)
 	ext = func(chain []int, top int) {
@@ -802,15 +857,15 @@ func runShareDeep(res *vk.Result, u *universe, maxLen int) {
 			next := append(append([]int(nil), chain...), c)
 			sc.Transitions++
 			sc.States++
-			for _, vr := range readVariants {
-				q := shareReq{Method: vr.method, Chain: u.names(next), Assemble: vr.assemble}
+			for _, vr := range deepVariants {
+				q := shareReq{Method: vr.method, Chain: u.names(next), Assemble: vr.assemble, Asm: vr.asm}
 				out, p := u.checkOne(q, next)
 				sc.Executions++
 				sc.Outcome(fmt.Sprintf("len%d|%s", len(next), out))
 				if p != nil {
 					u.report(res, sc, q, next, p)
 				}
-				if p == nil && len(next) > deepest && strings.HasPrefix(out, "serve[") && vr.method == "GET" && !vr.assemble {
+				if p == nil && len(next) > deepest && strings.HasPrefix(out, "serve[") && vr.method == "GET" && !vr.assemble && vr.asm == "" {
 					deepest = len(next)
 					if len(next) >= u.depth() {
 						sc.Sample(map[string]any{"deepest_served_chain": q.Chain, "oracle_and_status": out})
@@ -887,6 +942,7 @@ func replayShare(res *vk.Result, r map[string]any) {
 	q := shareReq{}
 	q.Method, _ = rq["method"].(string)
 	q.Assemble, _ = rq["assemble"].(bool)
+	q.Asm, _ = rq["asm"].(string)
 	q.Form, _ = rq["form"].(string)
 	for _, c := range rq["chain"].([]any) {
 		q.Chain = append(q.Chain, c.(string))
